@@ -153,9 +153,15 @@ Example validate_examples :
      (JObj [(bs "country", JStr (bs "ES"))]) = None.
 Proof. vm_compute. repeat split. Qed.
 
-(* the recorded finding, spelled out: delivery.json's report is exactly ["enum"], every other
-   file's is empty *)
-Example delivery_report :
-  option_map malformed (lookup (bs "bill/delivery.json") shipped_schema_json) = Some [bs "enum"] /\
-  option_map malformed (lookup (bs "bill/invoice.json") shipped_schema_json) = Some [].
+(* the well-formedness report on hand-written schemas: the shape of the recorded finding
+   ("enum" given a string), a missing array, a nested position, and a clean schema *)
+Example report_examples :
+  malformed (JObj [(bs "type", JStr (bs "string")); (bs "enum", JStr (bs "advice"))]) = [bs "enum"] /\
+  malformed (JObj [(bs "properties", JObj [(bs "a", JObj [(bs "required", JStr (bs "x"))])])]) = [bs "required"] /\
+  malformed (JObj [(bs "oneOf", JArr [])]) = [bs "oneOf"] /\
+  malformed (JObj [(bs "type", JArr [JStr (bs "string"); JStr (bs "null")]);
+                   (bs "enum", JArr [JStr (bs "advice"); JStr (bs "note")]);
+                   (bs "items", JBool true); (bs "minLength", JNum 1 0)]) = [] /\
+  map (fun p => (fst p, lookup (fst p) (map (fun f => (fst f, malformed (snd f))) shipped_schema_json)))
+      known_malformed = map (fun p => (fst p, Some [snd p])) known_malformed.
 Proof. vm_compute. repeat split. Qed.
